@@ -78,8 +78,9 @@ def render(m, L):
 # ------------------------------------------------------------------------------------------------ shells
 def wrapper_risky(src, mutated):
     """Could `f() {<nl>src<nl>}` be accepted/rejected differently from src alone?"""
-    if mutated and "<<" in src:
-        return True                      # an open here-document swallows the closing brace
+    if "<<" in src and (mutated or "\r" in src):
+        return True                      # an open here-document swallows the closing brace (with a CR after the
+                                         # delimiter word the here-document of an unmutated program stays open too)
     if src.rstrip("\n").endswith("\\"):
         return True                      # the continuation joins the closing brace
     depth = 0
